@@ -51,6 +51,7 @@ From Coq Require Import PrimFloat.
 From Coq Require Import ZArith List Bool Reals Lra Permutation Sorted.
 From BZ Require Import Base.Ops Gen.Point Gen.BBox Gen.Line Gen.Quad Gen.Cubic Hand.Bounds Hand.Shoelace Hand.Winding Proofs.C05 Proofs.C11 Proofs.C11curves Proofs.C11box Proofs.C11infl.
 Import ListNotations.
+From BZ Require Proofs.Transfer4.
 From BZ Require Gen.Sample Gen.Winding Proofs.Bridge4.
 Open Scope R_scope.
 
@@ -213,6 +214,18 @@ Proof. exact @Bridge4.Hneg_F. Qed.
 Theorem C11_horizontal_inflection_float_refuted :
   let O := FOpsT infl_tbl in (match path_box O infl_path with Some b => BBox_includes O b infl_query | None => true end) = false /\ windingNumberOfPoint O infl_path infl_query = Some 2%Z /\ pointIsInside O infl_path infl_query = Some false.
 Proof. exact horizontal_inflection_float_refuted. Qed.
+Theorem C11_gen_pointIsInside_parity :
+  forall (T : Type) (O : Ops T), neg O (ofZ O 10) = ofZ O (-10) -> forall (segs : list (segment T)) (p : pt T) (w : Z), Winding.Path_windingNumberOfPoint O segs p = Sample.Returns w -> Winding.Path_pointIsInside O segs p = Sample.Returns (Z.odd w).
+Proof. exact @Transfer4.gen_pointIsInside_parity. Qed.
+Theorem C11_gen_polygon_even_odd :
+  forall (ls : list (seg2 R)) (b0 : bbox R) (x y : R), polygon_query ls b0 x y -> Winding.Path_pointIsInside ROps (map SLine ls) {| px := x; py := y |} = Sample.Returns (Nat.odd (length (filter (left_of x y) ls))) /\ Nat.odd (length (filter (left_of x y) ls)) = Nat.odd (length (filter (right_of x y) ls)).
+Proof. exact @Transfer4.gen_polygon_even_odd. Qed.
+Theorem C11_gen_polygon_winding_number :
+  forall (ls : list (seg2 R)) (b0 : bbox R) (x y : R), polygon_query ls b0 x y -> Winding.Path_windingNumberOfPoint ROps (map SLine ls) {| px := x; py := y |} = Sample.Returns (Z.abs (leftSum ls x y)) /\ Z.abs (leftSum ls x y) = Z.abs (rightSum ls x y).
+Proof. exact @Transfer4.gen_polygon_winding_number. Qed.
+Theorem C11_gen_bbox_outside_zero :
+  forall (ls : list (seg2 R)) (b0 : bbox R) (x y : R), polygon_query ls b0 x y -> BBox_includes ROps b0 {| px := x; py := y |} = false -> Winding.Path_windingNumberOfPoint ROps (map SLine ls) {| px := x; py := y |} = Sample.Returns 0%Z.
+Proof. exact @Transfer4.gen_bbox_outside_zero. Qed.
 
 Print Assumptions C11_abs_sum_signs_parity.
 Print Assumptions C11_winding_sum_parity_any.
@@ -267,3 +280,7 @@ Print Assumptions C11_pointIsInside_gen.
 Print Assumptions C11_Hneg_R.
 Print Assumptions C11_Hneg_F.
 Print Assumptions C11_horizontal_inflection_float_refuted.
+Print Assumptions C11_gen_pointIsInside_parity.
+Print Assumptions C11_gen_polygon_even_odd.
+Print Assumptions C11_gen_polygon_winding_number.
+Print Assumptions C11_gen_bbox_outside_zero.
